@@ -40,6 +40,9 @@ def main():
     ap.add_argument("demo")
     ap.add_argument("--needs", default="")
     ap.add_argument("--checks", default="")
+    ap.add_argument("--scratch", action="store_true",
+                    help="run the checks on scratch copies (tools/par_eval.py: patched worktree + copy of the machinery, "
+                         "CVSS_REPO) instead of applying the patch to /repo; several seeds can then be evaluated at once")
     args = ap.parse_args()
     meta = {"id": args.id, "property": args.property, "needs_to_manifest": args.needs, "ran": []}
     wt = "/tmp/seedcheck_%s" % args.id
@@ -70,6 +73,27 @@ def main():
     checks = [args.property] if not args.checks else (
         ["C%02d" % i for i in range(1, 21)] if args.checks == "all" else args.checks.split(","))
     results = {}
+    if args.scratch:
+        out_dir = "/tmp/seed_scratch_out"
+        rc, out = sh([PY, os.path.join(VERIF, "tools", "par_eval.py"), args.id, os.path.abspath(args.patch), "--checks",
+                      ",".join(checks), "--kind", "seed", "--out", out_dir, "--jobs", "2"], timeout=6000)
+        print(out[-1500:])
+        pm = json.load(open(os.path.join(out_dir, args.id, "meta.json")))
+        for c, r in pm["checks"].items():
+            results[c] = {"exit": r["exit"], "violation_lines": r["violation_lines"], "signatures": r["signatures"],
+                          "wall_s": r["wall_s"],
+                          "no_failing_input": any("no-failing-input-found" in x for x in r["signatures"])}
+        meta["checks"] = results
+        meta["detected_by"] = [c for c, r in results.items() if r["exit"] == 1]
+        meta["ran"].append("tools/par_eval.py: patch applied to a scratch worktree, ./check <prop> --tier quick of a copy of the "
+                           "machinery with CVSS_REPO pointing at it")
+        d = os.path.join(VERIF, "seeded", args.id)
+        os.makedirs(d, exist_ok=True)
+        shutil.copy(args.patch, os.path.join(d, "patch.diff"))
+        shutil.copy(args.demo, os.path.join(d, "demo.py"))
+        json.dump(meta, open(os.path.join(d, "meta.json"), "w"), indent=1)
+        print("detected by:", meta["detected_by"])
+        return 0
     rc, st = sh(["git", "-C", REPO, "status", "--porcelain"])
     if st.strip():
         print("/repo is not clean; refusing:", st)
